@@ -1172,6 +1172,32 @@ pub fn gen_history_doc(p: &mut Prng) -> (GDoc, Vec<String>) {
     out.trans.push(GTrans { events: vec!["z".to_string()], targets: vec!["P".to_string()], ..Default::default() });
     let deeper = inner[p.below(inner.len() as u64) as usize].clone();
     out.trans.push(GTrans { events: vec!["w".to_string()], targets: vec![deeper], ..Default::default() });
+    // a parallel P: its regions get histories of their own, and `v` comes back through SEVERAL targets at
+    // once — two region histories, or a plain state of one region followed by the other region's
+    // history (the recorded value of a later history target must be merged with the earlier targets)
+    let mut multi_back = false;
+    if pst.kind == Kind::Parallel {
+        let mut region_hist: Vec<(usize, String)> = vec![];
+        for (i, k) in pst.kids.iter_mut().enumerate() {
+            if k.kind == Kind::State && !k.kids.is_empty() {
+                let hid = format!("hr{}", i);
+                let t = k.kids[0].id.clone();
+                k.hist.push(GHist { id: hid.clone(), deep: p.chance(1, 2), targets: vec![t], content: vec![] });
+                region_hist.push((i, hid));
+            }
+        }
+        if region_hist.len() >= 2 {
+            let (a, b) = (region_hist[0].1.clone(), region_hist[1].1.clone());
+            let tg = if p.chance(1, 2) { vec![b, a] } else { vec![first_leaf(&pst.kids[region_hist[1].0]), a] };
+            out.trans.push(GTrans { events: vec!["v".to_string()], targets: tg, ..Default::default() });
+            multi_back = true;
+        } else if region_hist.len() == 1 {
+            let other = if region_hist[0].0 == 0 { 1 } else { 0 };
+            let tg = vec![first_leaf(&pst.kids[other]), region_hist[0].1.clone()];
+            out.trans.push(GTrans { events: vec!["v".to_string()], targets: tg, ..Default::default() });
+            multi_back = true;
+        }
+    }
     // sometimes P's own default entry goes through its history
     if pst.kind == Kind::State && p.chance(1, 4) {
         pst.init = Init::Attr(vec!["H".to_string()]);
@@ -1187,7 +1213,7 @@ pub fn gen_history_doc(p: &mut Prng) -> (GDoc, Vec<String>) {
             order.push(evs[p.below(evs.len() as u64) as usize].clone());
         }
         order.push("x".to_string());
-        order.push((*p.pick(&["y", "y", "z", "w"])).to_string());
+        order.push(if multi_back && p.chance(1, 2) { "v".to_string() } else { (*p.pick(&["y", "y", "z", "w"])).to_string() });
     }
     let k = p.range(0, 2);
     for _ in 0..k {
